@@ -1,5 +1,7 @@
 package vrt
 
+import "sync"
+
 // Pure-Go reference bodies for library functions that bottom out in assembly or
 // reflection. The engine redirects calls to them (see defaultRedirects); natively the
 // real library functions run.
@@ -369,4 +371,32 @@ func IsSpaceRune(r rune) bool {
 		return true
 	}
 	return r >= 0x2000 && r <= 0x200a
+}
+
+// ---- sync.Pool model (engine redirect of (*sync.Pool).Get / Put) ----
+// A pool is a LIFO list per pool: Get returns the most recently Put value, or New().
+// That is one of the behaviours the real pool allows (and what it does on one goroutine
+// without an intervening GC), so anything that goes wrong under this model can go wrong
+// for real.
+
+var poolItems = map[*sync.Pool][]any{}
+
+func PoolGet(p *sync.Pool) any {
+	l := poolItems[p]
+	if n := len(l); n > 0 {
+		x := l[n-1]
+		poolItems[p] = l[:n-1]
+		return x
+	}
+	if p.New != nil {
+		return p.New()
+	}
+	return nil
+}
+
+func PoolPut(p *sync.Pool, x any) {
+	if x == nil {
+		return
+	}
+	poolItems[p] = append(poolItems[p], x)
 }
